@@ -52,7 +52,7 @@ func (c01) Runs(tier string) int {
 	if tier == "thorough" {
 		return 40000
 	}
-	return 480
+	return 1000
 }
 
 func (c01) Gen(seed uint64, run int, tier string) *core.Case {
